@@ -33,6 +33,9 @@ func init() {
 		ruleUpdateLoop(c, "C01-R4")
 		ruleCaptureBeforeProject(c, "C01-R5")
 		ruleMainToShadow(c, "C01-R5", "C01-R5", "C01-R5")
+		c.Rule("C01-R7", "INDIRECT: raw-read mode only in read-only snapshot transactions (aliasing corrupts merges); snapshot names sort chronologically (peers take the last name as an instance's newest)")
+		ruleRawReadWriters(c, "C01-R7")
+		ruleNameLayout(c, "C01-R7")
 		c.Rule("C01-R6", "PUBLISH: the stale-marker cutoff is off unless the sweeper is enabled; the id reported as synced is bounded by what LMDB recorded (else a local write is never uploaded and replicas cannot converge)")
 		ruleCutoffProvenance(c, "C01-R6")
 		ruleSyncedIdBound(c, "C01-R6")
@@ -107,6 +110,9 @@ func init() {
 			}
 		}
 		ruleUpdateLoop(c, "C03-R8")
+		c.Rule("C03-R9", "INDIRECT: the two-sided walk visits every stored key also for an empty input (Clean for emptied DBIs); remote entries are merged with default timestamp 0 and the load-time cutoff")
+		ruleIterBoth(c, "C03-R9", "C03-R9", "C03-R9")
+		ruleLoadBody(c, "C03-R9", "C03-R9", "C03-R9", "C03-R9", "C03-R9")
 	})
 }
 
@@ -145,6 +151,7 @@ func init() {
 		}
 		c.Rule("C04-R9", "DELETIONS-CAPTURED: in shadow mode the capture pass runs for every application DBI unconditionally (an emptied DBI included), so every disappeared key gets its marker")
 		ruleMainToShadow(c, "C04-R9", "C04-R9", "C04-R9")
+		ruleLoadBody(c, "C04-R6", "C04-R6", "C04-R6", "C04-R6", "C04-R6")
 	})
 
 	register("C05", propMeta{
@@ -163,6 +170,7 @@ func init() {
 		ruleWaitSet(c, "C05-R2")
 		ruleListingIncludesOwn(c, "C05-R3")
 		ruleStoreOrFail(c, "C05-R4", "C05-R5", "C05-R4")
+		ruleRetryCountValidated(c, "C05-R4")
 		ruleFatal(c, "C05-R6")
 		ruleCleanerDeletes(c, "C05-R7", "C05-R7", "C05-R7", "C05-R7", "C05-R7", "C05-R7")
 		ruleCommittedCopied(c, "C05-R5")
@@ -189,6 +197,9 @@ func init() {
 		c.Rule("C06-R7", "NAME-STATES-TIME-AND-INSTANCE: the name's time field is the UTC rendering of the snapshot time with fixed-width nanoseconds; the instance field is sanitised so that the separators stay unambiguous")
 		ruleNameLayout(c, "C06-R7")
 		ruleSanitiser(c, "C06-R7")
+		c.Rule("C06-R8", "INDIRECT: raw-read mode only in the read-only snapshot transaction; header.Parse/Skip split header and application value correctly for every extension count")
+		ruleRawReadWriters(c, "C06-R8")
+		ruleParseTable(c, "C06-R8")
 	})
 
 	register("C09", propMeta{
@@ -204,6 +215,7 @@ func init() {
 		ruleWatermarkWriters(c, "C09-R2")
 		ruleWatermarkAtomic(c, "C09-R3")
 		ruleStoreOrFail(c, "C09-R4", "C09-R4", "C09-R4")
+		ruleRetryCountValidated(c, "C09-R4")
 		ruleCaptureBeforeProject(c, "C09-R2")
 		c.Rule("C09-R5", "SYNCED-ID-BOUNDED: the id reported as synced is min(txn.ID(), LastTxnID)")
 		ruleSyncedIdBound(c, "C09-R5")
@@ -238,6 +250,8 @@ func init() {
 		ruleWatermarkWriters(c, "C10-R4")
 		c.Rule("C10-R5", "NO-REBUILD: a plain DBI is projected with IterUpdate (no write when unchanged); only dupsort DBIs are rebuilt")
 		ruleShadowToMain(c, "C10-R5", "C10-R5")
+		c.Rule("C10-R6", "CUTOFF-PROVENANCE: the stale-marker cutoff is on exactly when the sweeper is (a swept marker re-added by every load is swept again: a commit and an echo upload per exchange)")
+		ruleCutoffProvenance(c, "C10-R6")
 	})
 
 	register("C18", propMeta{
@@ -255,6 +269,7 @@ func init() {
 		ruleOneTxn(c, "C18-R1", fnLoadOnce, fnLoadTxn, []string{fnMainToSh, fnShToMain, fnStratUpd, "lmdbenv.DBIExists", "(*lmdb.Txn).OpenDBI"})
 		ruleErrFlow(c, "C18-R2", fnLoadTxn, fnMainToSh, fnShToMain, fnStratUpd, fnIterUpd, fnIterUpd+"$callback", fnEmptyPut, "?lmdbenv/strategy.doPut", "?lmdbenv/strategy.setNewVal", "lmdbenv/strategy.iterBoth", "syncer.(*NativeIterator).Next", fnReadDBI)
 		ruleLoadErrReturned(c, "C18-R2")
+		ruleNextEOF(c, "C18-R2")
 		ruleVersionGates(c, "C18-R3")
 		t := BuildMergeTable(c, "syncer.(*NativeIterator).Merge")
 		if t != nil {
@@ -284,6 +299,7 @@ func init() {
 		ruleIterBoth(c, "C19-R3", "C19-R4", "C19-R5")
 		ruleCmpInt(c, "C19-R5")
 		ruleIntegerKeyFlag(c, "C19-R5")
+		ruleEndianProbe(c, "C19-R5")
 		ruleEmptyPut(c, "C19-R7")
 		ruleSetNewVal(c, "C19-R7")
 		c.Rule("C19-R8", "NO-OWN-REJECTION: a strategy fails only when the iterator or LMDB failed or the input order is wrong")
@@ -308,6 +324,8 @@ func init() {
 		ruleCleanerDeletes(c, "C12-R2", "C12-R3", "C12-R4", "C12-R5", "C12-R6", "C12-R7")
 		ruleReceiveOnlyCleaner(c, "C12-R7")
 		ruleStoreOrFail(c, "C12-R5", "C12-R5", "C12-R7")
+		ruleRetryCountValidated(c, "C12-R5")
+		ruleBuildParse(c, "C12-R2")
 		ruleCommittedCopied(c, "C12-R5")
 	})
 
@@ -328,6 +346,7 @@ func init() {
 		ruleLimitScannerResume(c, "C13-R6")
 		c.Rule("C13-R7", "SLICE-ERROR-ABORTS: a failed slice transaction ends the pass with an error before the resume flag is looked at")
 		ruleSweepSliceErrors(c, "C13-R7")
+		ruleRawReadWriters(c, "C13-R5")
 	})
 }
 
@@ -352,6 +371,8 @@ func init() {
 		ruleCleanDisappeared(c, "C16-R5")
 		ruleWaitSet(c, "C16-R5")
 		ruleLimiter(c, "C16-R6")
+		c.Rule("C16-R7", "LABEL-ARITY: metric vectors get as many label values as they declare (a mismatch panics on the download-failure path instead of retrying)")
+		ruleMetricLabelArity(c, "C16-R7")
 	})
 }
 
@@ -404,6 +425,7 @@ func init() {
 		ruleIntegerKeyFlag(c, "C11-R4")
 		ruleIterBoth(c, "C11-R4", "C11-R5", "C11-R4")
 		ruleCmpInt(c, "C11-R4")
+		ruleEndianProbe(c, "C11-R4")
 		ruleShadowCreateMask(c, "C11-R4")
 		ruleCaptureBeforeProject(c, "C11-R6")
 		ruleSendDump(c, "C11-R7", "C11-R6", "C11-R7")
@@ -450,6 +472,7 @@ func init() {
 		ruleParseTable(c, "C14-R6")
 		c.Rule("C14-R7", "PUTBASIC-ON-FRESH: PutBasic (which zeroes the extension count) is only applied to a fresh buffer or the caller's scratch field, never to bytes read from LMDB")
 		rulePutBasicFresh(c, "C14-R7")
+		ruleSweeper(c, "C14-R6", "C14-R6", "C14-R6", "C14-R6")
 	})
 }
 
@@ -464,6 +487,7 @@ func init() {
 		c.Rule("C15-R3", "SANITISER")
 		c.Rule("C15-R4", "KIND-FILTER and prefixes")
 		ruleNameLayout(c, "C15-R1")
+		ruleTimestampTime(c, "C15-R1")
 		ruleBuildParse(c, "C15-R2")
 		ruleSanitiser(c, "C15-R3")
 		ruleReceiverListing(c, "C15-R4", "C15-R4")
@@ -490,6 +514,7 @@ func init() {
 		ruleTopicChannels(c, "C17-R3")
 		ruleGetGlobal(c, "C17-R5")
 		ruleCancellableLoops(c, "C17-R6")
+		ruleSleepContext(c, "C17-R6")
 		ruleLimiter(c, "C17-R7")
 		c.Rule("C17-R8", "SHARED-FIELDS: every struct field written after construction and reachable from goroutines not ordered by start-up is accessed under a common lock (static lockset over the VTA call graph)")
 		ruleSharedFields(c, "C17-R8")
@@ -515,6 +540,7 @@ func init() {
 		ruleAppendSizes(c, "C07-R2")
 		ruleReadAtCursor(c, "C07-R3", "C07-R3")
 		ruleLengthGuarded(c, "C07-R3")
+		ruleNextEOF(c, "C07-R3")
 		ruleNoReceiverReset(c, "C07-R5")
 		c.Rule("C07-R6", "OUTPUT-FRESH: encoder results do not alias package-level storage")
 		ruleEncoderOutputFresh(c, "C07-R6")
@@ -540,6 +566,9 @@ func init() {
 		ruleMarkCorrupt(c, "C08-R4")
 		ruleReceiverListing(c, "C08-R4", "C08-R4")
 		ruleRetryAndNotify(c, "C08-R4")
+		ruleCleanDisappeared(c, "C08-R4")
+		c.Rule("C08-R7", "LABEL-ARITY: metric vectors get as many label values as they declare (a mismatch panics on the failure path)")
+		ruleMetricLabelArity(c, "C08-R7")
 		ruleErrFlow(c, "C08-R5", "snapshot.LoadData", "snapshot.(*Snapshot).Unmarshal", "snapshot.NewDBIFromData", "snapshot.(*Meta).Unmarshal", "snapshot.(*DBI).indexData", "snapshot.(*DBI).Next", "snapshot.(*KV).Unmarshal", "snapshot.skipTag")
 		ruleDecodeResources(c, "C08-R6")
 	})
